@@ -52,10 +52,20 @@ def run(ctx, vlib):
                 failing.append(rec)
             elif len(diffs) < 20:
                 diffs.append(rec)
+    # MsgPack through the stream reader must report exactly what the memory load reports (paths come from the scopes'
+    # current keys, which in stream mode are views into the reader's buffer: finding F54, repaired by a981807)
+    mp_idx = [i for i, line in enumerate(cases) if line.split(" ")[1] == "mp"]
+    if mp_idx:
+        sc = [cases[i].replace(" mp ", " mps ", 1) for i in mp_idx]
+        so = vlib.run_driver(impl, sc)
+        for i, line, o in zip(mp_idx, sc, so):
+            if o != oi[i] and len(failing) < 20:
+                failing.append(dict(driver="arch", case=line, implementation=o, model=om[i], judge="FAIL",
+                                    why="loading the same MsgPack document from a stream reports differently than loading it from memory (%s)" % oi[i][:200]))
     known_lines, known_cases = A.known_findings("C17", vlib, impl)
     failing = [f for f in failing if f["case"] not in known_cases]
     samples = [dict(case=cases[i], implementation=oi[i], model=om[i]) for i in range(0, min(len(cases), 4))]
-    return dict(evaluations=len(cases), distinct_nontrivial=nt, samples=samples, classes=classes, failing=failing,
+    return dict(evaluations=len(cases) + len(mp_idx), distinct_nontrivial=nt, samples=samples, classes=classes, failing=failing,
                 diffs=diffs, known_lines=known_lines, exhaustive=False,
                 rule="10 validated classes (flat, several failing rules per field, Email/PhoneNumber/lambda, nested, inside vector, inside map, same key twice, five-field for the caps, root array incl. CSV, nested-in-array-in-class) x random documents putting every field in {valid, at / just inside / just outside each Range, MinSize, MaxSize bound, absent, null, wrong type} x maxValidationErrors in {0,1,2,3,100} x {JSON, MsgPack, CSV for the root array} x policies; plus the one-field-at-a-time bound neighbourhoods of the two flat classes; non-trivial = distinct case whose outcome is a ValidationException or another exception",
                 broken="correspondence arch model (ArchModel.v part 2) vs validators.h/key_value_proxy.h/serialization_context.h (drv_arch validate)")
